@@ -70,7 +70,13 @@ func c13Run(line string) string {
 		if err != nil {
 			return "err"
 		}
-		return c13Show(u)
+		// the conversion must leave the caller's big.Int alone (a second conversion of the same
+		// number gives the same value)
+		out := c13Show(u) + " src=" + n.String()
+		if u2, err2 := NewUint128(n); err2 != nil || *u2 != *u {
+			out += " second-differs"
+		}
+		return out
 	case "json":
 		var u Uint128
 		if err := json.Unmarshal([]byte(f[1]), &u); err != nil {
